@@ -3,7 +3,7 @@
    All statements are about the model instantiated with the Unicode tables of the Go toolchain
    (Consts.v): go_is_letter, go_is_number, go_to_lower. *)
 From Coq Require Import List Bool NArith.
-From C11 Require Import Model ProofsGo.
+From C11 Require Import Model ProofsText ProofsGo.
 Open Scope N_scope.
 
 (* Lower-casing agrees on both sides for EVERY byte string (valid UTF-8 or not, including runes whose
@@ -39,6 +39,43 @@ Theorem C11_keyword_oversize_consistent :
           qkw go_to_lower (cs c) p = [TText t] /\ lit_matches (qkw go_to_lower (cs c) p) t = true).
 Proof. exact go_kw_consistent. Qed.
 Print Assumptions C11_keyword_oversize_consistent.
+
+(* Text fields, any value, any limits. With p = the part of the value within maxFieldValueLength
+   (the whole value unless partial indexing cuts it):
+   (1) the tokenizer's byte-level scan (ASCII table fast path, decoded slow path, lower-casing skipped or
+       done in place per word) emits exactly the rune-level words of p that fit MaxTokenSize, lower-cased
+       unless case-sensitive  [lem:same_token_class is the ASCII half of this];
+   (2) the query built from ANY single word of p is one literal with one text term, byte-equal to the
+       token of that word, and finds it when the word was indexed;
+   (3) the query built from the whole of p splits on exactly the index side's separators.
+   No UTF-8 validity hypothesis: an invalid byte is a separator on both sides. *)
+Theorem C11_text_words_findable :
+  forall c fmax v, v <> [] ->
+    let p := indexed_part TyText c fmax v in
+    let toks := fst (text_tokenize go_is_letter go_is_number go_to_lower c fmax v) in
+    if skipped TyText c fmax v then toks = []
+    else
+      toks = map (go_word_token c) (filter (sizeok c) (words_of go_is_letter go_is_number (segs p) []))
+      /\ (forall w, In w (words_of go_is_letter go_is_number (segs p) []) ->
+            qtext go_is_letter go_is_number go_to_lower (cs c) w = [[TText (go_word_token c w)]]
+            /\ (sizeok c w = true ->
+                query_finds (qtext go_is_letter go_is_number go_to_lower (cs c) w) toks = true))
+      /\ (has_rune WildcardRune p = false -> words_of go_is_letter go_is_number (segs p) [] <> [] ->
+            qtext go_is_letter go_is_number go_to_lower (cs c) p =
+            map (fun w => [TText (go_word_token c w)]) (words_of go_is_letter go_is_number (segs p) [])).
+Proof. exact go_text_consistent. Qed.
+Print Assumptions C11_text_words_findable.
+
+Example C11_text_nonvacuous :
+  let c := ICfg false false 72 32768 in
+  let v := [75; 226; 132; 170; 95; 195; 128; 66; 32; 217; 163; 120; 42; 121] in
+  skipped TyText c 0 v = false /\
+  words_of go_is_letter go_is_number (segs (indexed_part TyText c 0 v)) [] =
+    [[75; 226; 132; 170; 95; 195; 128; 66]; [217; 163; 120; 42; 121]] /\
+  fst (text_tokenize go_is_letter go_is_number go_to_lower c 0 v) =
+    [[107; 107; 95; 195; 160; 98]; [217; 163; 120; 42; 121]] /\
+  has_rune WildcardRune (indexed_part TyText c 0 v) = false.
+Proof. exact text_nonvacuous. Qed.
 
 (* The hypothesis "case-insensitive or valid UTF-8" cannot be dropped: known finding cs-invalid-utf8
    (DESIGN section 9, #13), witness replayed on the real code by the driver. *)
